@@ -323,6 +323,10 @@ def r11f(ctx):
     fn = RS
     ins = [c for c in a.calls() if sg(a.term(c).get('fn', '')).split('::')[-1] == 'insert' and len(a.term(c)['args']) == 3
            and a.arg(c, 2)[0] == 'agg' and a.arg(c, 2)[2].endswith('ChunkCacheElement')]
+    if not ins:
+        # the index may be filled by an iterator pipeline (filter/map/extend); that form is not analysed — reported as information, not as a violation
+        ctx.info('R11f', fn, '-', 'information: no direct insertion of a ChunkCacheElement in register_shards (iterator pipeline?); the skip-guard obligation is not evaluated on this shape')
+        return
     if not ctx.check(len(ins) == 1, 'R11f', fn, 'index insert', '-', 'one insertion of a ChunkCacheElement into the chunk lookup', 'expected one ChunkCacheElement insertion, found %d' % len(ins)):
         return
     I = ins[0]
@@ -339,6 +343,7 @@ def r11f(ctx):
         return
     lp = min(lps, key=lambda l: len(l[1]))
     latches = [(x, lp[0]) for x in lp[1] if lp[0] in a.cfg.succ[x]]
+    outside = [b_ for b_ in a.cfg.reach0 if b_ not in lp[1]]
     # edges inside the loop from which the latch is reachable without passing the insert: skip edges
     n_guard = 0
     for b in sorted(lp[1]):
@@ -350,10 +355,10 @@ def r11f(ctx):
             for (x, y) in edges:
                 if y not in lp[1]:
                     continue
-                r_ = a.cfg.reach([y], cut_blocks=[I], cut_edges=set(latches))
+                r_ = a.cfg.reach([y], cut_blocks=[I] + outside, cut_edges=set(latches))
                 skips = any(lx in r_ or lx == y for (lx, _) in latches) and I not in r_
                 other = [e2 for e2 in (te if edges is fe else fe)]
-                takes = any(I in a.cfg.reach([y2], cut_edges=set(latches)) or y2 == I for (_, y2) in other)
+                takes = any(y2 in lp[1] and (I in a.cfg.reach([y2], cut_blocks=outside, cut_edges=set(latches)) or y2 == I) for (_, y2) in other)
                 if not (skips and takes):
                     continue
                 n_guard += 1
@@ -363,4 +368,5 @@ def r11f(ctx):
                 ctx.check(ok, 'R11f', fn, 'skip guard', a.loc(b), 'a chunk is skipped only on a test of the value that is narrowed into the index element (%s)' % flow.show(val[0])[-40:] if val else '?',
                           'the indexing loop skips a chunk on a test of %s, which is not a value the index element stores in a narrower field (%s): chunks are left out of the dedup index for no representational reason and later sessions re-upload them'
                           % (flow.show(val[0])[-60:] if val else '?', ', '.join(sorted(narrow))))
-    ctx.floor('R11f', 'skip guards in the indexing loop of register_shards', n_guard, 1)
+    if n_guard == 0:
+        ctx.info('R11f', fn, a.loc(I), 'information: no comparison in the indexing loop skips the insertion (a narrowing by try_from, or no skip at all)')
